@@ -27,6 +27,11 @@ REPO = os.environ.get('VERIF_REPO', '/repo')
 GUARD = 'SVGPATHTOOLS_VERIF'
 
 
+# per-shard context merged into every recorded violation case (e.g. {'prov': 'reversed_twice'}: how the library
+# segments of mc.alphabets came into being); set by the worker from the shard descriptor, restored on replay
+CONTEXT = {}
+
+
 def bind_repo():
     """Make `import svgpathtools` resolve to the working tree of /repo."""
     os.environ.setdefault(GUARD, '1')
@@ -143,6 +148,9 @@ class Acc(object):
         """sig: dict of abstract features (narrow!) used to group and to match
         known findings.  case: JSON-able, enough for replay()."""
         sig = dict(sig)
+        if CONTEXT and isinstance(case, dict):
+            case = dict(case, **CONTEXT)
+            sig = dict(sig, **{k: v for k, v in CONTEXT.items() if k == 'prov'})
         key = canon({'clause': clause, 'sig': sig})
         hk = hashlib.blake2b(key.encode(), digest_size=6).hexdigest()
         self.viol_counts[hk] += 1
@@ -235,7 +243,15 @@ def _worker(args):
         bind_repo()
         import importlib
         mod = importlib.import_module(modname)
-        acc = mod.run_shard(desc, tier, seed)
+        CONTEXT.clear()
+        if isinstance(desc, dict) and desc.get('prov'):
+            CONTEXT['prov'] = desc['prov']
+        try:
+            acc = mod.run_shard(desc, tier, seed)
+            if CONTEXT.get('prov'):
+                acc.seen('prov:' + CONTEXT['prov'])
+        finally:
+            CONTEXT.clear()
         return idx, acc, None
     except BaseException:
         return idx, None, traceback.format_exc()
@@ -289,7 +305,15 @@ def finish(mod, acc, tier, seed, wall, nshards):
         # confirm by replaying the recorded case on the current tree
         confirmed = None
         try:
-            rv = mod.replay(v['case'])
+            rc = v['case']
+            CONTEXT.clear()
+            if isinstance(rc, dict) and rc.get('prov'):
+                CONTEXT['prov'] = rc['prov']
+                rc = {k: x for k, x in rc.items() if k != 'prov'}
+            try:
+                rv = mod.replay(rc)
+            finally:
+                CONTEXT.clear()
             confirmed = any(x['clause'] == v['clause'] for x in rv)
         except Exception:
             confirmed = None
